@@ -55,6 +55,8 @@ pub struct Report {
     pub violation_count: u64,
     pub inconclusive: Vec<String>,
     pub notes: Vec<String>,
+    /// named auxiliary distinct-sets (e.g. interleaving signatures); reported as counters `distinct_<name>` per shard
+    pub aux: BTreeMap<String, HashSet<u64>>,
 }
 
 impl Report {
@@ -71,6 +73,7 @@ impl Report {
             violation_count: 0,
             inconclusive: vec![],
             notes: vec![],
+            aux: BTreeMap::new(),
         }
     }
     pub fn eval(&mut self, n: u64) {
@@ -111,6 +114,12 @@ impl Report {
             self.inconclusive.push(msg.to_string());
         }
     }
+    pub fn aux_distinct(&mut self, name: &str, h: u64) {
+        let e = self.aux.entry(name.to_string()).or_default();
+        if e.len() < 2_000_000 {
+            e.insert(h);
+        }
+    }
     pub fn note(&mut self, msg: &str) {
         self.notes.push(msg.to_string());
     }
@@ -118,12 +127,16 @@ impl Report {
     pub fn to_json(&self, ctx: &Ctx) -> Value {
         let mut d: Vec<u64> = self.distinct.iter().copied().collect();
         d.sort_unstable();
+        let mut counters = self.counters.clone();
+        for (k, v) in self.aux.iter() {
+            counters.insert(format!("distinct_{}_summed_over_shards", k), v.len() as u64);
+        }
         json!({
             "property": ctx.prop, "tier": ctx.tier, "seed": ctx.seed, "shard": ctx.shard, "of": ctx.of, "mode": ctx.mode,
             "evaluations": self.evaluations,
             "distinct": d,
             "distinct_capped": self.distinct_capped,
-            "counters": self.counters,
+            "counters": counters,
             "maxima": self.maxima,
             "samples": self.samples,
             "violations": self.violations,
